@@ -418,7 +418,8 @@ pub fn check(img: &Image, raw: &[u8]) -> CheckResult {
     let h = &img.hdr;
     // ---- header constants
     rule!(raw[8..24].iter().all(|&b| b == 0), "hdr_clsid_zero", "header CLSID not zero");
-    rule!(h.minor == 0x3E, "hdr_minor", "minor version {:#x}", h.minor);
+    // the minor version SHOULD be 0x3E (MS-CFB 2.2); files of other writers carry 0x3B, 0x21, ...
+    // and keep it when this crate modifies them, so it is not a rule
     rule!(rd16(raw, 28) == 0xFFFE, "hdr_bom", "byte order {:#x}", rd16(raw, 28));
     rule!(rd16(raw, 32) == 6, "hdr_minishift", "mini shift {}", rd16(raw, 32));
     rule!(raw[34..40].iter().all(|&b| b == 0), "hdr_reserved", "reserved bytes not zero");
@@ -527,10 +528,9 @@ pub fn check(img: &Image, raw: &[u8]) -> CheckResult {
         let mut inorder: Vec<u32> = Vec::new();
         let mut work: Vec<(u32, bool, u8)> = vec![(e.child, false, 1)]; // (id, expanded, parent colour: 1 black)
         let mut ok = true;
-        rules += 1;
-        if (e.child as usize) < n && img.entries[e.child as usize].color != 1 {
-            out.push(v("rb_root_black", format!("root of the sibling tree of entry {st} is red")));
-        }
+        // MS-CFB 2.6.4 demands a black *root storage object* (and calls its colour irrelevant),
+        // no red-red edge, and the order; it does not demand that the top of every sibling
+        // tree is black, so that is not a rule here (it was, wrongly, until round 4)
         while let Some((id, expanded, pcol)) = work.pop() {
             if id as usize >= n {
                 out.push(v("tree_id_range", format!("storage {st}: link to entry {id:#x} of {n}")));
